@@ -231,6 +231,9 @@ func CmdCheck(args []string) int {
 		if o.Status == "unsat" {
 			discharged++
 			bySolver[o.Solver]++
+			if os.Getenv("KV_SLOW") != "" && o.Secs > 5 {
+				fmt.Fprintf(os.Stderr, "SLOW %.1fs %s (%s)\n", o.Secs, o.Name, o.Solver)
+			}
 			if len(samples) < 6 {
 				samples = append(samples, map[string]any{"obligation": o.Name, "status": o.Status, "solver": o.Solver, "secs": round3(o.Secs), "what": o.Desc, "at": o.Pos})
 			}
